@@ -1,10 +1,11 @@
 (* Extraction of the C10 model: ExtrOcamlBasic only, no Extract Constant. *)
 Require Import ExtrOcamlBasic.
 From Coq Require Import QArith Qabs.
-From SharkV Require Import C10Model C10LsModel C10Gen C10LbfgsModel C10AdamRprop.
+From SharkV Require Import C10Model C10LsModel C10Gen C10LbfgsModel C10AdamRprop C10TrustRegion.
 Extraction "c10_model.ml" ls_init ls_step sd_init_model sd_dir cg_init_model cg_dir sd_init sd_step
   quad_f quad_grad box_feasb box_feasb_slack box_eps ls_save ls_restore cg_save_extra cg_restore_extra sd_save_full sd_restore_full
   ray linesearch ls_init_o ls_step_o bfgs_init_model bfgs_dir bfgs_save_extra bfgs_restore_extra Qdiv Coq.QArith.Qabs.Qabs Qle_bool
   lb_init_model lb_update_hist lb_mult_binv lb_mult_b lb_box_dir lbfgs_dir lbfgs_dir_box lb_save_extra lb_restore_extra dot Qopp
   g_update_hist g_mult_binv g_mult_b g_box_dir g_box_branch g_mask gvneg gdot QO qops
-  g_adam_step g_rprop_step adam_step rprop_step g_adam_init g_rprop_init.
+  g_adam_step g_rprop_step adam_step rprop_step g_adam_init g_rprop_init
+  tr_border tr_cg tr_init tr_step_with tr_solve tr_step tr_step_info q099 q01 quad_fd Qeq_bool.
